@@ -258,14 +258,17 @@ func c28CheckPlan(curLive []c28Live, desRaw []osutil.MountEntry, plan []*Change)
 	)
 	action := make([]int, len(cur))
 	pos := make([]int, len(cur))
+	// identical entries are interchangeable: a change is attributed to the most recently
+	// mounted one that is still unaccounted for
 	match := func(e osutil.MountEntry) int {
 		k := e.String()
+		best := -1
 		for i := range cur {
-			if action[i] == actNone && cur[i].String() == k {
-				return i
+			if action[i] == actNone && cur[i].String() == k && (best < 0 || curLive[i].seq > curLive[best].seq) {
+				best = i
 			}
 		}
-		return -1
+		return best
 	}
 	var mountsAt []int // plan positions of Mount changes
 	for p, ch := range plan {
@@ -945,12 +948,11 @@ func c28Run(c c28Case) (o verifkit.Outcome, err error) {
 			}
 			note([]error{verifkit.Violatef("%s\nsaved:\n%s", msg, strings.Replace(*ctx.saved, root, "", -1))})
 		}
-		if stale {
-			// resynchronise so that one defect is not reported again in every later step
-			truth.live = nil
-			for _, l := range next {
-				truth.add(l.e, l.seq)
-			}
+		if stale || len(info.staleKept) > 0 {
+			// the recorded profile no longer describes the namespace (reported above): like
+			// after a fatal failure, the history ends here
+			labels["profile-diverged"] = true
+			break
 		}
 		live = next
 		curText = *ctx.saved
@@ -1029,7 +1031,7 @@ func c28GenChangedParent(t *rapid.T) c28Case {
 		O: rapid.SampledFrom([]string{"", "", "", "layout", "overname"}).Draw(t, "porigin"),
 		S: rapid.IntRange(0, 3).Draw(t, "psrc")}
 	under := base
-	if rapid.Bool().Draw(t, "deeper") { // the mimic is reported one level below the parent
+	if rapid.IntRange(0, 2).Draw(t, "deeper") != 0 { // the mimic is reported one level below the parent
 		under = base + "/" + rapid.SampledFrom(c28Segs).Draw(t, "mid")
 		c.Tree = append(c.Tree, c28Node{P: under, T: "d"})
 	} else if rapid.Bool().Draw(t, "baseexists") {
@@ -1134,7 +1136,7 @@ func c28Gen(t *rapid.T) c28Case {
 					st.Desired = append(st.Desired, e)
 				}
 			}
-			lo := 0
+			lo := 1
 			if s == 0 {
 				lo = 2
 			}
@@ -1179,6 +1181,8 @@ func TestVerifC28History(t *testing.T) {
 			"rootfs":                     0.10,
 			"changed-parent-above-mimic": 0.10,
 		},
-		NonTrivialFloor: 0.30,
+		// about a third of the histories run into a known finding (F-C28-1, -5) and are
+		// not counted as non-trivial by the kit; of the others about 40 % are non-trivial
+		NonTrivialFloor: 0.20,
 	})
 }
